@@ -53,18 +53,22 @@ structure PTable where
   size : Nat
   freeItem : Option Nat
   blocks : Nat
+  /-- class constants: items per block, capacity of the default / copy constructor (see `Table`) -/
+  ipb : Nat
+  dcap : Nat
 
-instance : Inhabited PTable := ⟨⟨false, 1, false, fun _ => none, fun _ => default, .stl false, none, 0, none, 0⟩⟩
+instance : Inhabited PTable := ⟨⟨false, 1, false, fun _ => none, fun _ => default, .stl false, none, 0, none, 0, 1, 1⟩⟩
 
 namespace PTable
 
-def fresh (self : Bool) (cap : Nat) : PTable :=
+def fresh (self : Bool) (cap ipb dcap : Nat) : PTable :=
   { self := self, cap := cap, allocated := false, heads := fun _ => none,
     items := fun _ => ⟨0, 0, .bucket 0, none, none, .stl self⟩,
-    begin := .stl self, endPrev := none, size := 0, freeItem := none, blocks := 0 }
+    begin := .stl self, endPrev := none, size := 0, freeItem := none, blocks := 0, ipb := ipb, dcap := dcap }
 
-def construct (self : Bool) (capacity : Nat) : PTable := fresh self (if capacity = 0 then 1 else capacity)
-def constructDefault (self : Bool) : PTable := fresh self 500
+def construct (self : Bool) (ipb dcap capacity : Nat) : PTable :=
+  fresh self (if capacity = 0 then 1 else capacity) ipb dcap
+def constructDefault (self : Bool) (ipb dcap : Nat) : PTable := fresh self dcap ipb dcap
 
 /-- `*cell = v` -/
 def writeCell (t : PTable) (c : CellRef) (v : Option Nat) : PTable :=
@@ -101,21 +105,24 @@ def walk (items : Nat → PItem) (k : Nat) : Nat → Option Nat → Option (Opti
 def find (h : Nat → Nat) (t : PTable) (k : Nat) : Option (Option Nat) :=
   if t.allocated then walk t.items k t.size (t.heads (h k % t.cap)) else some none
 
-/-- take an item: from the free list, or a new block of four (HashMap/HashSet use the first and push the others;
-    PoolMap pushes all four and pops) -/
+/-- `for(i = first … first+n-1) { i->prev = freeItem; freeItem = i; }` (PoolMap: the same loop with the local `item`) -/
+def pushFree : PTable → Nat → Nat → PTable
+  | t, _, 0 => t
+  | t, first, n + 1 => pushFree { t.setPrev first t.freeItem with freeItem := some first } (first + 1) n
+
+/-- take an item: from the free list, or a new block of `ipb` items (HashMap/HashSet use the first and push the others;
+    PoolMap pushes all of them and pops the last: `freeItem = item; … freeItem = item->prev`) -/
 def allocItem (kind : Kind) (t : PTable) : Nat × PTable :=
   match t.freeItem with
   | some f => (f, { t with freeItem := (t.items f).prev })
   | none =>
-    let b := 4 * t.blocks
+    let b := t.ipb * t.blocks
     if kind = Kind.pool then
-      -- for(i = first .. first+3) { i->prev = item; item = i; }  freeItem = item;  …  freeItem = item->prev
-      let t1 := (((t.setPrev b none).setPrev (b + 1) (some b)).setPrev (b + 2) (some (b + 1))).setPrev (b + 3) (some (b + 2))
-      (b + 3, { t1 with freeItem := some (b + 2), blocks := t.blocks + 1 })
+      let t1 := t.pushFree b (t.ipb - 1 + 1)
+      (b + (t.ipb - 1), { t1 with freeItem := (t1.items (b + (t.ipb - 1))).prev, blocks := t.blocks + 1 })
     else
-      -- item = first;  for(i = item+1 .. item+3) { i->prev = freeItem; freeItem = i; }
-      let t1 := ((t.setPrev (b + 1) none).setPrev (b + 2) (some (b + 1))).setPrev (b + 3) (some (b + 2))
-      (b, { t1 with freeItem := some (b + 3), blocks := t.blocks + 1 })
+      let t1 := t.pushFree (b + 1) (t.ipb - 1)
+      (b, { t1 with blocks := t.blocks + 1 })
 
 /-- construct the item and push it to the front of the chain of bucket `c`:
     `new(item) Item(key, value); item->cell = cell = &data[c]; if((item->nextCell = *cell)) item->nextCell->cell = &item->nextCell; *cell = item` -/
@@ -212,7 +219,7 @@ def appendAll (kind : Kind) (h : Nat → Nat) (t other : PTable) : Option PTable
   appendLoop kind h other.self other.items other.size other.begin t
 
 def copyOf (kind : Kind) (h : Nat → Nat) (self : Bool) (other : PTable) : Option PTable :=
-  appendAll kind h (fresh self 500) other
+  appendAll kind h (fresh self other.dcap other.ipb other.dcap) other
 
 def assignFrom (kind : Kind) (h : Nat → Nat) (t other : PTable) : Option PTable :=
   match t.clear with
@@ -290,7 +297,10 @@ structure PState where
 def PState.get (s : PState) (t : Bool) : PTable := if t then s.b else s.a
 def PState.set (s : PState) (t : Bool) (x : PTable) : PState := if t then { s with b := x } else { s with a := x }
 
-def pinit : PState := ⟨PTable.constructDefault false, PTable.constructDefault true⟩
+def pinitWith (ipb dcap : Nat) : PState :=
+  ⟨PTable.constructDefault false ipb dcap, PTable.constructDefault true ipb dcap⟩
+
+def pinit : PState := pinitWith 4 500
 
 /-- iterator designated by a position of the order list (`l.length` = `end()`) -/
 def nxtAt (self : Bool) (l : List Nat) (pos : Nat) : Nxt :=
@@ -324,8 +334,8 @@ def optSet (s : PState) (t : Bool) (x : Option PTable) (o : Out) : Option (PStat
 def pstep (kind : Kind) (h : Nat → Nat) (s : PState) (op : Op) : Option (PState × Out) :=
   if !op.available kind then none else
   match op with
-  | .construct t cap => some (s.set t (PTable.construct t cap), .unit)
-  | .constructDefault t => some (s.set t (PTable.constructDefault t), .unit)
+  | .construct t cap => some (s.set t (PTable.construct t (s.get t).ipb (s.get t).dcap cap), .unit)
+  | .constructDefault t => some (s.set t (PTable.constructDefault t (s.get t).ipb (s.get t).dcap), .unit)
   | .copyFrom t => optSet s t (PTable.copyOf kind h t (s.get (!t))) .unit
   | .assign t => optSet s t (PTable.assignFrom kind h (s.get t) (s.get (!t))) .unit
   | .append t k v =>
